@@ -2,22 +2,15 @@
    Model stack (vyper/venom/stack_model.py): list of operand ids, BOTTOM first (top = last element);
    depths are 0 (top), -1, -2, ...  EVM stack: top first.  No proofs here. *)
 From Coq Require Import ZArith List Bool.
+From Verif Require Import Base.PyInt C14S.PyList.   (* zlen, set_nth *)
 Import ListNotations.
 Open Scope Z_scope.
-
-Definition zlen {A} (l : list A) : Z := Z.of_nat (length l).
 
 (* ---- EVM stack (top first) ---- *)
 Definition evm_push (x : Z) (s : list Z) : list Z := x :: s.
 Definition evm_pop (s : list Z) : option (list Z) := match s with [] => None | _ :: t => Some t end.
 Definition evm_dup (n : Z) (s : list Z) : option (list Z) :=
   if (1 <=? n) && (n <=? 16) && (n <=? zlen s) then Some (nth (Z.to_nat (n - 1)) s 0 :: s) else None.
-Fixpoint set_nth (l : list Z) (n : nat) (v : Z) : list Z :=
-  match l, n with
-  | [], _ => []
-  | _ :: t, O => v :: t
-  | x :: t, S k => x :: set_nth t k v
-  end.
 Definition evm_swap (n : Z) (s : list Z) : option (list Z) :=
   if (1 <=? n) && (n <=? 16) && (n <? zlen s) then
     let a := nth 0 s 0 in let b := nth (Z.to_nat n) s 0 in
@@ -38,3 +31,13 @@ Fixpoint find_top (x : Z) (s : list Z) (i : Z) : option Z :=
   end.
 Definition spec_get_depth (m : list Z) (x : Z) : option Z :=
   match find_top x (view m) 0 with Some i => Some (- i) | None => None end.
+
+(* ---- specification of the stack-map operations on the bottom-first list (Python's representation) ---- *)
+Definition idx (m : list Z) (d : Z) : nat := Z.to_nat (zlen m - 1 + d).     (* list index of depth d *)
+Definition st_peek (m : list Z) (d : Z) : Z := nth (idx m d) m 0.
+Definition st_push (m : list Z) (x : Z) : list Z := m ++ [x].
+Definition st_pop (m : list Z) (n : Z) : list Z := firstn (Z.to_nat (zlen m - n)) m.
+Definition st_poke (m : list Z) (d x : Z) : list Z := set_nth m (idx m d) x.
+Definition st_dup (m : list Z) (d : Z) : list Z := m ++ [st_peek m d].
+Definition st_swap (m : list Z) (d : Z) : list Z :=
+  set_nth (set_nth m (idx m 0) (st_peek m d)) (idx m d) (st_peek m 0).
